@@ -100,6 +100,11 @@ class Recorder(object):
         if v == 'resp':
             return self.new(Response('resp-from-%s' % who, status=spec.get('status', 200),
                                      headers={'X-Sim-From': who}), 'resp:' + who)
+        if v == 'baseresp':
+            # a bare werkzeug BaseResponse: a response object without clastic's/werkzeug's mixins
+            from werkzeug.wrappers import BaseResponse
+            return self.new(BaseResponse('bare-resp-from-%s' % who, status=spec.get('status', 200),
+                                         headers={'X-Sim-From': who}), 'resp:' + who)
         if v == 'str':
             return 'a-string-from-%s' % who
         if v == 'none':
@@ -270,7 +275,7 @@ class OnionModel(object):
 
     def value(self, spec, who):
         v = spec.get('value', 'resp')
-        if v == 'resp':
+        if v in ('resp', 'baseresp'):
             return ('resp', self.new('resp:' + who), who, spec.get('status', 200))
         if v.startswith('http:'):
             return ('http', self.new('exc:' + v), v[5:], spec.get('breaking', True))
